@@ -2,7 +2,7 @@
    Proofs/FastVerilogProofs.v.  Models: Model/FastVerilog.v (fast_sem, full_sem, untie, in_subset). *)
 From Coq Require Import Ascii.
 From stdpp Require Import strings gmap sets.
-From CG Require Import Model.FastVerilog Model.FastVerilogText Proofs.FastVerilogTextProofs Proofs.FastVerilogProofs Proofs.FvA6 Proofs.FvA10 Proofs.FvA1 Proofs.FvP1 Proofs.FvD6 Proofs.FvD7 Proofs.FvD8 Proofs.FvE2 Proofs.FvE3 Base.Sem Gen.Gen_fastv.
+From CG Require Import Model.FastVerilog Model.FastVerilogText Model.FastVerilogInst Proofs.FastVerilogTextProofs Proofs.FastVerilogInstProofs Proofs.FastVerilogProofs Proofs.FvA6 Proofs.FvA10 Proofs.FvA1 Proofs.FvP1 Proofs.FvD6 Proofs.FvD7 Proofs.FvD8 Proofs.FvE2 Proofs.FvE3 Base.Sem Gen.Gen_fastv.
 Open Scope string_scope.
 
 (* obligation on the regenerated tables: patterns of the fast reader as captured from a live call (keywords anchored with \b,
@@ -192,6 +192,15 @@ Theorem C14_fast_nets_render : ∀ t0 t1 (ops : list opd) (ws : list (string * s
 Proof. exact fast_nets_render. Qed.
 Print Assumptions C14_fast_nets_render.
 
+(* CHARACTER LEVEL (2): one anchored match of the instance pattern, as a string function (tied to re.match by CInst cases), recovers
+   gate name, instance name and operand text from `gate inst(ops);` with arbitrary blanks at the allowed places *)
+Theorem C14_scan_inst_render : ∀ g w1 i w2 ops rest,
+  ident_ok g = true → ident_ok i = true → blanks w1 = true → w1 ≠ EmptyString → blanks w2 = true →
+  ops ≠ EmptyString → no_char ";"%char ops = true →
+  scan_inst (g ++ w1 ++ i ++ w2 ++ "(" ++ ops ++ ");" ++ rest) = Some (g, i, ops).
+Proof. exact scan_inst_render. Qed.
+Print Assumptions C14_scan_inst_render.
+
 (* non-vacuity: a concrete AST inside the subset (keyword inside an identifier, nets called tie0 / tie_0, leading underscore,
    constants at a gate, a pin and an assign, equal operands of a parity gate, unconnected and omitted pins, use before
    definition) on which the agreement holds *)
@@ -230,6 +239,11 @@ Proof. split; vm_compute; reflexivity. Qed.
 Example C14_fast_nets_example :
   fast_nets "tie0" "tie1" (join_with ","%char (pad <$> padded [ONet "o"; OConst "1'b1"; ONet "xinput"] [("  ", "	"); ("", " "); (" ", "")]))
     = ["o"; "tie1"; "xinput"] ∧ fast_split " a ,,b  " = ["a"; ""; "b"].
+Proof. split; vm_compute; reflexivity. Qed.
+Example C14_scan_inst_example :
+  scan_inst "nand  NAND2_0	( o , a,
+ b );and g2(x,y);" = Some ("nand", "NAND2_0", " o , a,
+ b ") ∧ scan_inst "nand g1 (o,a) ;" = None.
 Proof. split; vm_compute; reflexivity. Qed.
 Example C14_parity_nonvacuous : is_parity Xnor = true ∧ cancel_pairs ["a"; "b"; "a"; "c"; "b"; "b"] = ["c"; "b"].
 Proof. split; vm_compute; reflexivity. Qed.
